@@ -211,6 +211,38 @@ class Driver:
 
 
 _CWD0 = os.getcwd()
+_JADE_GLOBALS = {}   # (module name, variable) -> (container object, shallow copy when first seen)
+
+
+def _restore_jade_globals():
+    """All simulated processes of all runs of a worker share one interpreter.  JADE's module-level
+    containers must not carry state from one run into the next (a real process starts with fresh modules):
+    before every run they are put back to the contents they had when first seen.  (Within a run they are
+    still shared by the simulated processes; the unchanged tree mutates none of them.)"""
+    import sys
+
+    for name, mod in list(sys.modules.items()):
+        if mod is None or not (name == "jade" or name.startswith("jade.")):
+            continue
+        for k, v in list(vars(mod).items()):
+            if k.startswith("__") or not isinstance(v, (list, dict, set)):
+                continue
+            key = (name, k)
+            ent = _JADE_GLOBALS.get(key)
+            if ent is None or ent[0] is not v:
+                _JADE_GLOBALS[key] = (v, v.copy())
+                continue
+            saved = ent[1]
+            if isinstance(v, list):
+                if len(v) != len(saved) or any(a is not b for a, b in zip(v, saved)):
+                    v[:] = saved
+            elif isinstance(v, dict):
+                if len(v) != len(saved) or any(kk not in v or v[kk] is not vv for kk, vv in saved.items()):
+                    v.clear()
+                    v.update(saved)
+            elif v != saved:
+                v.clear()
+                v.update(saved)
 
 
 def execute(scenario, prof, seed, trace=None, then_generate=False, props=(), debug=False, keep=False,
@@ -223,6 +255,7 @@ def execute(scenario, prof, seed, trace=None, then_generate=False, props=(), deb
     from .scenario import materialise
 
     _RUN_N += 1
+    _restore_jade_globals()
     root = os.path.join(scratch_base(), f"r{_RUN_N % 1000000:06d}")
     shutil.rmtree(root, ignore_errors=True)
     os.makedirs(root)
